@@ -132,6 +132,47 @@ def m(p, t, env=None):
     return p == t
 
 
+ITER_NEXT_KEY = "core::iter::Iterator::next"
+
+
+def iter_origin(r, peel_filter=True):
+    """the iterator expression an item was pulled from: the loop-carried `mutby` members of the receiver phi (the iterator
+    after earlier pulls) and into_iter()/by_ref() wrappers are dropped"""
+    for _ in range(6):
+        if r[0] == "phi":
+            ms = [x for x in r[1] if x[0] not in ("mutby", "loop")]
+            if len(ms) != 1:
+                return r
+            r = ms[0]
+        elif r[0] == "call" and isinstance(r[1], str) and r[2] and (core.callee_base(r[1]) in (
+                "core::iter::IntoIterator::into_iter", "core::iter::Iterator::by_ref") or
+                (peel_filter and core.callee_base(r[1]) == "core::iter::Iterator::filter")):
+            # (the items that pass a filter are items of the filtered iterator, unchanged)
+            r = r[2][0]
+        else:
+            return r
+    return r
+
+
+def It(x, site=None):
+    """an element produced by the iterator x: `payload(next(x))` of a for/while-let loop or the closure parameter of an
+    iterator combinator (`item` term); both are the same value set"""
+    def f(t, env):
+        if t[0] == "item":
+            if site is not None:
+                return False
+            r = t[1]
+        elif t[0] == "payload" and t[1][0] == "call" and isinstance(t[1][1], str) and \
+                core.callee_base(t[1][1]) == ITER_NEXT_KEY and len(t[1][2]) == 1:
+            if site is not None and t[1][3] != site:
+                return False
+            r = t[1][2][0]
+        else:
+            return False
+        return m(x, iter_origin(r), env)
+    return f
+
+
 def members(t):
     return list(t[1]) if t[0] == "phi" else [t]
 
